@@ -83,6 +83,19 @@ def probe_instance(rec, t, ti, source):
                     return
             if before is not None and isinstance(before, list):
                 rec.violation("array-not-tuple", "tree %d %s%s.%s is a list" % (ti, ".".join(cls), where, n), {"tree": ti, "class": ".".join(cls), "attribute": n, "xml": t.files})
+            # what a getter hands out must not be a handle on the instance's state: anything mutable is changed
+            # in place here; the caller (one) re-serializes afterwards and compares
+            if isinstance(before, (bytearray, list, dict, set)):
+                rec.count("mutable-values-handed-out")
+                try:
+                    if isinstance(before, bytearray):
+                        before.extend(b"\x01\x02")
+                    elif isinstance(before, list):
+                        before.append(before[0] if before else 0)
+                    rec.violation("getter-hands-out-mutable-state", "tree %d %s%s.%s (%s instance) is a %s: changing it in place changes the instance" % (
+                        ti, ".".join(cls), where, n, source, type(before).__name__), {"tree": ti, "class": ".".join(cls), "attribute": n, "source": source, "xml": t.files})
+                except Exception:
+                    pass
         rec.count("instances-probed")
         rec.seen("classes-probed-depth", str(len(cls)))
     return fn
